@@ -1,5 +1,6 @@
 import Driver.Loop
 import Midgard.Model.Config
+import Midgard.Proofs.ConfigDoc
 
 /-!
 Driver for C19.  One *history* per line:  `c19 run op op op …` answers one token per op.
@@ -24,7 +25,9 @@ Text fields are hex (`.` = empty), `-` is None.
   v:cfg                                                flattened view
   p:cfg                                                cfg.profiles
   w:cfg:width                                          cfg.as_str(width)
-  r:cfg:width                                          view of Configuration.read_from_file(written file)
+  r:cfg:width                                          view of Configuration.read_from_file(written file), then `|` and
+                                                       its per-profile store  profile>view|profile>view…
+  t:cfg:width                                          `WfText` (the hypothesis of `text_roundtrip`) of the view at that width
  pure
   a:kind:value                                         entry.<kind>   kind = list|tuple|dict|bool|int
   x:value:vars:callvars:default|-                      entry.replace(default, **callvars) with cfg vars
@@ -81,6 +84,10 @@ def showSection (withSource : Bool) (n : String) (s : Section) : String :=
 
 def showView (withSource : Bool) (secs : Sections) : String :=
   if secs.isEmpty then "{}" else "/".intercalate (secs.map fun (n, s) => showSection withSource n s)
+
+/-- `_profile_sections`: profile (`~` = None) `>` its sections -/
+def showStore (ps : List (Profile × Sections)) : String :=
+  "|".intercalate (ps.map fun (p, secs) => (p.map hx).getD "~" ++ ">" ++ showView false secs)
 
 def mutRes (e : Option Err) : String := match e with | none => "ok" | some e => s!"err:{showErr e}"
 
@@ -165,7 +172,12 @@ def step (w : World) (op : String) : Option (World × String) :=
     let text := asStr width 30 (w.get i).sections ++ "\n"
     match (Cfg.new "reread").updateFromText text "F" true false with
     | .error _ => pure (w, "err:ini")
-    | .ok (c', e) => pure (w, match e with | none => showView false c'.sections | some e => s!"err:{showErr e}")
+    | .ok (c', e) => pure (w, match e with
+        | none => showView false c'.sections ++ "|" ++ showStore c'.profileSections
+        | some e => s!"err:{showErr e}")
+  | ["t", c, width] => do
+    let i ← idx? c; let width ← width.toNat?
+    pure (w, showBool (Midgard.Proofs.ConfigText.WfText true width 30 (w.get i).sections))
   | ["a", kind, v] => do
     let v ← unhx? v
     match kind with
